@@ -16,6 +16,7 @@ import Noodles.Vcf.DriverC09
 import Noodles.Sam.DriverC06
 import Noodles.Util.DriverC20
 import Noodles.Io.DriverC12
+import Noodles.Bgzf.DriverC16
 namespace Noodles
 open Noodles.Wire
 
@@ -37,6 +38,7 @@ def dispatch (line : String) : String :=
   | "c06" :: rest => Sam.Drv.handleC06 rest
   | "c20" :: rest => Util.handleC20 rest
   | "c12" :: rest => IO.handleC12 rest
+  | "c16" :: rest => Bgzf.Async.handleC16 rest
   | _ => "bad-suite"
 
 end Noodles
